@@ -692,3 +692,20 @@ M("c12-leaf-role-lost", "C12", "cola/libavoid/hyperedgeimprover.cpp",
   "                        self->isConnectorSource = other->isConnectorSource;\n", "", mention=["ZERO-LENGTH-EDGES", "SOURCE"])
 M("c12-neutral-results-assert-other-vector", "C12", "cola/libavoid/hyperedge.cpp",
   "    COLA_ASSERT(index < m_new_junctions_vector.size());", "    COLA_ASSERT(index < m_deleted_connectors_vector.size());", expect="silent")
+MUTANTS.append({"id": "c08-single-replacement-per-node", "prop": "C08", "expect": "fire", "mention": ["SHARED-NODE-TWINS", "THREE"], "tu": None, "edits": [
+    {"file": "cola/libcola/cluster.h", "old": "        std::map<unsigned, std::vector<Cluster *> > m_overlap_replacement_map;",
+     "new": "        std::map<unsigned, Cluster *> m_overlap_replacement_map;", "count": 1},
+    {"file": "cola/libcola/cluster.cpp", "old": "                    lcaChildJCluster->m_overlap_replacement_map[i].push_back(\n                            lcaChildKCluster);",
+     "new": "                    lcaChildJCluster->m_overlap_replacement_map[i] =\n                            lcaChildKCluster;", "count": 1},
+    {"file": "cola/libcola/cluster.cpp", "old": "                    lcaChildKCluster->m_overlap_replacement_map[i].push_back(\n                            lcaChildJCluster);",
+     "new": "                    lcaChildKCluster->m_overlap_replacement_map[i] =\n                            lcaChildJCluster;", "count": 1},
+    {"file": "cola/libcola/colafd.cpp", "old": "                const std::vector<Cluster *>& others =\n                        cluster->m_overlap_replacement_map[id];\n                expandedClusterSet.insert(others.begin(), others.end());",
+     "new": "                expandedClusterSet.insert(\n                        cluster->m_overlap_replacement_map[id]);", "count": 1}]})
+M("c08-null-replacement-cluster", "C08", "cola/libcola/cluster.cpp",
+  "                if (lcaChildKCluster && lcaChildJCluster)\n", "                if (lcaChildKCluster)\n", mention=["SHARED-NODE-TWINS", "NULL"])
+M("c08-only-first-stand-in-used", "C08", "cola/libcola/colafd.cpp",
+  "                expandedClusterSet.insert(others.begin(), others.end());", "                expandedClusterSet.insert(others.front());",
+  mention=["SHARED-NODE-TWINS", "non-overlap groups"])
+M("c08-neutral-replacement-blocks-merged", "C08", "cola/libcola/cluster.cpp",
+  "                    lcaChildJCluster->m_nodes_replaced_with_clusters.insert(i);\n                }\n\n                if (lcaChildKCluster && lcaChildJCluster)\n                {",
+  "                    lcaChildJCluster->m_nodes_replaced_with_clusters.insert(i);", expect="silent")
